@@ -30,9 +30,17 @@ impl EventLog {
         let mut writer = self.writer.lock().expect("event log mutex");
         let line = serde_json::to_string(event)
             .map_err(|err| io::Error::new(io::ErrorKind::InvalidData, err))?;
+        #[cfg(rip_verif)]
+        rip_kernel::verif::point("log.body");
         writer.write_all(line.as_bytes())?;
+        #[cfg(rip_verif)]
+        rip_kernel::verif::point("log.newline");
         writer.write_all(b"\n")?;
+        #[cfg(rip_verif)]
+        rip_kernel::verif::point("log.flush");
         writer.flush()?;
+        #[cfg(rip_verif)]
+        rip_kernel::verif::point("log.done");
         Ok(())
     }
 
